@@ -656,3 +656,146 @@ func GenCons(r *hk.Rand, w *MWorld, maxDepth int) (c *Cons, class string) {
 		}
 	}
 }
+
+// ---- directed generation: the regions where the matcher defects live ----
+
+// GenFocusWorld builds a world shaped for one region: "members" – permanodes that are members of
+// each other with several tags each (ValueInSet over attribute values, relations, dangling
+// targets); "dirs" – directories nested three deep.
+func GenFocusWorld(r *hk.Rand, b *B, focus string) {
+	switch focus {
+	case "members":
+		n := 3 + r.Intn(3)
+		var pns []string
+		for i := 0; i < n; i++ {
+			pns = append(pns, b.PN(fmt.Sprintf("m%d", i)))
+		}
+		date := int64(1400000000)
+		dang := fakeRef(r)
+		for i, pn := range pns {
+			for j, k := 0, r.Intn(4); j < k; j++ {
+				date++
+				b.Claim(pn, "add", "tag", tagVals[r.Intn(len(tagVals))], date)
+			}
+			for j, k := 0, r.Intn(4); j < k; j++ {
+				date++
+				tgt := pns[r.Intn(len(pns))]
+				if r.Chance(10) {
+					tgt = dang
+				}
+				attr := "camliMember"
+				if r.Chance(15) {
+					attr = "camliPath:x"
+				}
+				b.Claim(pn, "add", attr, tgt, date)
+			}
+			if r.Chance(25) {
+				date++
+				b.Claim(pn, "set", "camliNodeType", nodeTypes[r.Intn(2)], date)
+			}
+			_ = i
+		}
+	case "dirs":
+		var files []string
+		for _, k := range []int{0, 1, 3} {
+			fs := fileSpecs[k]
+			files = append(files, b.File(fs.name, b.Bytes(fs.content), 1300000000, fs.mime))
+		}
+		pick := func() []string {
+			var ch []string
+			for _, f := range files {
+				if r.Chance(40) {
+					ch = append(ch, f)
+				}
+			}
+			return ch
+		}
+		seen := map[string]bool{}
+		mk := func(name string, ch []string) string {
+			key := strings.Join(ch, ",")
+			if seen[key] {
+				return ""
+			}
+			seen[key] = true
+			return b.Dir(name, ch)
+		}
+		var level []string
+		for i := 0; i < 1+r.Intn(2); i++ {
+			if d := mk(dirNames[r.Intn(len(dirNames))], pick()); d != "" {
+				level = append(level, d)
+			}
+		}
+		for depth := 0; depth < 2; depth++ {
+			var next []string
+			for i := 0; i < 1+r.Intn(2); i++ {
+				ch := pick()
+				for _, d := range level {
+					if r.Chance(70) {
+						ch = append(ch, d)
+					}
+				}
+				if d := mk(dirNames[r.Intn(len(dirNames))], ch); d != "" {
+					next = append(next, d)
+				}
+			}
+			if len(next) > 0 {
+				level = next
+			}
+		}
+	}
+}
+
+// GenFocusCons draws a constraint of the region's typical shape.
+func GenFocusCons(r *hk.Rand, w *MWorld, focus string) *Cons {
+	g := &cgen{r: r, w: w}
+	tag := func() *Cons { return &Cons{Pn: &PermC{Attr: "tag", Value: tagVals[r.Intn(len(tagVals))]}} }
+	switch focus {
+	case "members":
+		inner := tag()
+		switch r.Intn(4) {
+		case 0:
+			inner = &Cons{Op: g.pick([]string{"and", "or"}), A: tag(), B: tag()}
+		case 1:
+			inner = &Cons{Pn: &PermC{Attr: "tag", NumValue: g.intC([]int64{1, 2})}}
+		case 2:
+			inner = &Cons{Pn: &PermC{Attr: "camliMember", InSet: tag()}}
+		}
+		p := &PermC{Attr: g.pick([]string{"camliMember", "camliMember", "camliPath:x"}), InSet: inner, ValueAll: r.Chance(25)}
+		if r.Chance(30) {
+			rel := &RelC{Relation: g.pick([]string{"child", "parent"})}
+			if r.Bool() {
+				rel.Any = tag()
+			} else {
+				rel.All = tag()
+			}
+			if r.Chance(50) {
+				return &Cons{Pn: &PermC{Rel: rel}}
+			}
+			p.Rel = rel
+		}
+		c := &Cons{Pn: p}
+		if r.Chance(30) {
+			c.Camli = "permanode"
+		}
+		return c
+	case "dirs":
+		d := &DirC{}
+		sub := &Cons{File: g.file(0)}
+		if r.Chance(25) {
+			sub = &Cons{Dir: &DirC{Name: g.strC(dirNames)}}
+		}
+		if r.Chance(70) {
+			d.RContains = sub
+		} else {
+			d.Contains = sub
+		}
+		if r.Chance(60) {
+			d.Name = g.strC(dirNames)
+		}
+		if r.Chance(20) {
+			d.TopFileCount = g.intC([]int64{1, 2})
+		}
+		return &Cons{Dir: d}
+	}
+	return g.cons(2, "", false)
+}
